@@ -132,7 +132,7 @@ RESULTS3 = {
  "C18-r3-3": ("C18", "after a UDP-multicast reader was added"),
  "C18-r3-4": ("C18", ""),
  "C19-r3-1": ("C19", "after 'the refused connection does not stay attached to the session' was added"),
- "C19-r3-2": ("", "MISSED: needs a UDP-multicast client and a SETUP answer with a source= other than the server's address; C19 has no multicast and drives the library's server, which never sends one"),
+ "C19-r3-2": ("C19", "caught since the workload mcsrc (scripted multicast camera naming source=) was added to C19; missed at first"),
  "C19-r3-3": ("C19", "caught since the UDP-multicast reader was added to C19; missed at first"),
  "C20-r3-1": ("C20", ""), "C20-r3-2": ("C20", ""),
  "C20-r3-3": ("C20", "after user-info with an empty user name and a password was added"),
